@@ -122,6 +122,8 @@ def _run_ppt(ctx, spec, rng):
         forms = [("list", [da, db])]
         if da == db:
             forms.append(("none", None))
+        # a single number d means [d, N/d]: as a one-element list, a one-element array or a float (the forms the library accepts)
+        forms.append([("list1", [da]), ("array1", np.array([da])), ("float", float(da))][r % 3])
         tol = [None, 1e-8, 1e-6][r % 3]
         for fname, dim in forms:
             args = (rho.copy(), sys_, dim) if tol is None else (rho.copy(), sys_, dim, tol)
